@@ -304,6 +304,10 @@ def check_normalized_cut(rep, repo):
     from ..rules_heap import _sub, lin, lin_eq
     w = model_walk(repo, "UnsupervisedOPF", "_normalized_cut")
     fn = w.entry
+    for e in w.events:
+        if e.kind == "call" and {"out", "where"} & set(dict(e.kwargs or ())):
+            raise AnalysisError(f"UnsupervisedOPF._normalized_cut: `{e.text()[:70]}` is a masked / in-place whole-array operation; "
+                                "the cut rules read the per-cluster sum as a scalar loop")
     G = ("attr", ("self",), "subgraph")
     kparam = ("param", fn.params[1])
     acc = []
